@@ -154,13 +154,18 @@ class BBAN(common.Base):
                 f"Account code exceeds maximum size {account_code_length}"
             )
 
-        for key, error in (
-            (Component.BANK_CODE, exceptions.InvalidBankCode),
-            (Component.BRANCH_CODE, exceptions.InvalidBranchCode),
-            (Component.ACCOUNT_CODE, exceptions.InvalidAccountCode),
-        ):
-            if not _matches_structure(spec, ranges[key], components[key]):
-                raise error(f"{key.value} does not match the BBAN structure {spec['bban_spec']}")
+        errors: dict[Component, type[exceptions.SchwiftyException]] = {
+            Component.BANK_CODE: exceptions.InvalidBankCode,
+            Component.BRANCH_CODE: exceptions.InvalidBranchCode,
+            Component.ACCOUNT_CODE: exceptions.InvalidAccountCode,
+        }
+        for key, value in components.items():
+            if (key in errors or values.get(key)) and not _matches_structure(
+                spec, ranges[key], value
+            ):
+                raise errors.get(key, exceptions.InvalidStructure)(
+                    f"{key.value} does not match the BBAN structure {spec['bban_spec']}"
+                )
 
         checksum = compute_national_checksum(country_code, components)
         if checksum:
